@@ -1,1 +1,184 @@
+(* C11 — property theorems.  Every theorem is closed: it quantifies over the oracles
+   (molar volume Vf, molecular weights MWf, the Chemicals objects pkgs, the units table utab),
+   over every initial store [l] and over every history [ops] of the operations of Model.op
+   (view reads and writes interleaved with T/P/phase/phases setters, link_with, unlink, copy_like,
+   property-package reset and the reset_chemicals round trip).  [final] is the heap after the history. *)
 From V Require Import Common.NumFacts C11.Model C11.Proofs.
+
+Definition Vf_respects_eq (Vf : nat -> phase -> Q -> Q -> Q) : Prop :=
+  forall g p T T' P P', T == T' -> P == P' -> Vf g p T P == Vf g p T' P'.
+Definition final Vf MWf pkgs utab (l : list init) (ops : list op) : heap :=
+  fst (run Vf MWf pkgs utab (build l) ops).
+
+(* alias_inv: after EVERY history, every view cached for every stream wraps that stream's current molar
+   dicts in the current phase order, takes T/P from the stream's own ThermalCondition object, the phase from
+   the stream's own phase box / phase labels, MW and V from the stream's own package; and streams that share
+   one cache dict share data, phases / phase box and package. *)
+Theorem C11_alias_inv : forall Vf MWf pkgs utab l ops, Vf_respects_eq Vf ->
+  let h := final Vf MWf pkgs utab l ops in
+  forall i s, nth_error (streams h) i = Some s ->
+    (forall v, c_mass (getcache h (cch s)) = Some v -> mv_rows v = srcs h s /\ mv_pkg v = pkg s) /\
+    (forall v, vol_find (tc s) (c_vols (getcache h (cch s))) = Some v ->
+       map (fun r => (vr_dct r, vr_src r)) (vv_rows v) = srcs h s /\ vv_tp v = tc s /\ vv_pkg v = pkg s) /\
+    (forall j s2, nth_error (streams h) j = Some s2 -> cch s = cch s2 ->
+       srcs h s = srcs h s2 /\ pkg s = pkg s2).
+Proof.
+  intros Vf MWf pkgs utab l ops E h i s Hs.
+  pose proof (inv_run Vf MWf pkgs utab E ops (build l) (inv_build Vf pkgs l)) as I.
+  destruct (I i s Hs) as (_ & (VM & VV) & SH). split; [|split].
+  - intros v Hv. exact (VM v Hv).
+  - intros v Hv. destruct (VV v Hv) as (A & B & C & _). auto.
+  - intros j s2 H2 EQ. pose proof (SH j s2 H2 EQ) as O. split.
+    + apply same_owner_srcs; exact O.
+    + destruct O as (_ & _ & K & _); exact K.
+Qed.
+Print Assumptions C11_alias_inv.
+
+(* the full invariant (including: every memo entry is the oracle's value for its key) holds after every history *)
+Theorem C11_invariant_all_histories : forall Vf MWf pkgs utab l ops, Vf_respects_eq Vf ->
+  Inv Vf pkgs (final Vf MWf pkgs utab l ops).
+Proof. intros Vf MWf pkgs utab l ops E. exact (inv_run Vf MWf pkgs utab E ops (build l) (inv_build Vf pkgs l)). Qed.
+Print Assumptions C11_invariant_all_histories.
+
+(* vol_get: after any history, reading the volumetric view gives, for every row (molar dict d, phase source src)
+   of the stream and every chemical j:  mol * 1000 * Vf chemical (CURRENT phase) (CURRENT T) (CURRENT P). *)
+Theorem C11_vol_get : forall Vf MWf pkgs utab l ops, Vf_respects_eq Vf ->
+  let h := final Vf MWf pkgs utab l ops in
+  forall i s, nth_error (streams h) i = Some s ->
+  forall n d src, nth_error (srcs h s) n = Some (d, src) -> forall j,
+    nthq (nth n (snd (read_vol Vf pkgs h s)) []) j
+    == nthq (getrow h d) j *
+       (1000 * Vf (gid pkgs (pkg s) j) (base (src_phase h src)) (fst (gettp h (tc s))) (snd (gettp h (tc s)))).
+Proof.
+  intros Vf MWf pkgs utab l ops E h i s Hs.
+  exact (vol_get_lemma Vf pkgs E h i s (inv_run Vf MWf pkgs utab E ops (build l) (inv_build Vf pkgs l)) Hs).
+Qed.
+Print Assumptions C11_vol_get.
+
+(* mass_get: after any history, the mass view of a (well-sized) row is mol * MW entry by entry *)
+Theorem C11_mass_get : forall Vf MWf pkgs utab l ops, Vf_respects_eq Vf ->
+  let h := final Vf MWf pkgs utab l ops in
+  forall i s, nth_error (streams h) i = Some s ->
+  forall n d src, nth_error (srcs h s) n = Some (d, src) ->
+  length (getrow h d) = length (mwvec MWf pkgs (pkg s)) -> forall j,
+    nthq (nth n (snd (read_mass MWf pkgs h s)) []) j == nthq (getrow h d) j * nthq (mwvec MWf pkgs (pkg s)) j.
+Proof.
+  intros Vf MWf pkgs utab l ops E h i s Hs.
+  exact (mass_get_lemma Vf MWf pkgs h i s (inv_run Vf MWf pkgs utab E ops (build l) (inv_build Vf pkgs l)) Hs).
+Qed.
+Print Assumptions C11_mass_get.
+
+(* mass_set: after any history, writing v through the mass view makes mol = v / MW at that entry and changes no
+   other entry of any molar dict *)
+Theorem C11_mass_set : forall Vf MWf pkgs utab l ops, Vf_respects_eq Vf ->
+  let h := final Vf MWf pkgs utab l ops in
+  forall i s r k v d src, nth_error (streams h) i = Some s -> nth_error (srcs h s) r = Some (d, src) ->
+  (d < length (rows h))%nat -> (k < length (getrow h d))%nat ->
+  snd (set_item Vf MWf pkgs h s VMass r k v) = XNone /\
+  nthq (getrow (fst (set_item Vf MWf pkgs h s VMass r k v)) d) k == v / MWf (gid pkgs (pkg s) k) /\
+  forall d' k', (d', k') <> (d, k) ->
+    nthq (getrow (fst (set_item Vf MWf pkgs h s VMass r k v)) d') k' == nthq (getrow h d') k'.
+Proof.
+  intros Vf MWf pkgs utab l ops E h i s r k v d src Hs Hr D K.
+  exact (mass_set_lemma Vf MWf pkgs h i s r k v d src
+           (inv_run Vf MWf pkgs utab E ops (build l) (inv_build Vf pkgs l)) Hs Hr D K).
+Qed.
+Print Assumptions C11_mass_set.
+
+(* totals: F_mol is the sum of the molar data by definition; F_mass is the sum of the mass view *)
+Theorem C11_totals_mass : forall MWf pkgs h s,
+  F_mol h s = qsum (map qsum (all_rows h s)) /\
+  F_mass MWf pkgs h s == qsum (map (fun r => qsum (mass_of MWf pkgs (pkg s) r)) (all_rows h s)).
+Proof. intros. split; [reflexivity|apply F_mass_is_sum]. Qed.
+Print Assumptions C11_totals_mass.
+
+(* F_vol == sum of the volumetric view: stated, not proved in this round (holds when F_mol <> 0; see report) *)
+Definition C11_totals_vol_statement : Prop := forall Vf pkgs h s, ~ F_mol h s == 0 ->
+  F_vol Vf pkgs h s ==
+  qsum (map (fun x => qsum (map2 (fun m g => m * (1000 * Vf g (base (src_phase h (snd x)))
+                                                     (fst (gettp h (tc s))) (snd (gettp h (tc s)))))
+                                 (getrow h (fst x)) (chems pkgs (pkg s)))) (srcs h s)).
+
+(* units: a unit of another dimension is rejected with DimensionError and nothing changes;
+   get_flow / get_total_flow are the fixed factor times the view item / the total *)
+Theorem C11_units_wrong_dimension : forall Vf MWf pkgs utab h i s u r k v,
+  nth_error (streams h) i = Some s -> unit_of utab u = None ->
+  step Vf MWf pkgs utab h (OGetFlow i u r k) = (h, XErr EDim) /\
+  step Vf MWf pkgs utab h (OSetFlow i u r k v) = (h, XErr EDim) /\
+  step Vf MWf pkgs utab h (OGetTotal i u) = (h, XErr EDim) /\
+  step Vf MWf pkgs utab h (OSetTotal i u v) = (h, XErr EDim).
+Proof. intros Vf MWf pkgs utab h i s u r k v Hs U. unfold step. rewrite Hs, U. repeat split. Qed.
+Print Assumptions C11_units_wrong_dimension.
+
+Theorem C11_units_factor : forall Vf MWf pkgs utab h i s u w f r k v,
+  nth_error (streams h) i = Some s -> unit_of utab u = Some (w, f) ->
+  step Vf MWf pkgs utab h (OGetFlow i u r k) = lift (get_item Vf MWf pkgs h s w r k) (fun x => f * x) /\
+  step Vf MWf pkgs utab h (OGetTotal i u) = (h, XMat [[f * total Vf MWf pkgs h s w]]) /\
+  step Vf MWf pkgs utab h (OSetFlow i u r k v) = set_item Vf MWf pkgs h s w r k (v / f) /\
+  step Vf MWf pkgs utab h (OSetTotal i u v) = set_total Vf MWf pkgs h s w (v / f).
+Proof. intros Vf MWf pkgs utab h i s u w f r k v Hs U. unfold step. rewrite Hs, U. repeat split. Qed.
+Print Assumptions C11_units_factor.
+
+(* hence two units of one dimension read the same item with their two fixed factors *)
+Theorem C11_units_other_unit : forall Vf MWf pkgs utab h i s u1 u2 w f1 f2 r k x h',
+  nth_error (streams h) i = Some s -> unit_of utab u1 = Some (w, f1) -> unit_of utab u2 = Some (w, f2) ->
+  get_item Vf MWf pkgs h s w r k = (h', Ok x) ->
+  step Vf MWf pkgs utab h (OGetFlow i u1 r k) = (h', XMat [[f1 * x]]) /\
+  step Vf MWf pkgs utab h (OGetFlow i u2 r k) = (h', XMat [[f2 * x]]).
+Proof.
+  intros Vf MWf pkgs utab h i s u1 u2 w f1 f2 r k x h' Hs U1 U2 G.
+  unfold step. rewrite Hs, U1, U2. unfold lift. rewrite G. split; reflexivity.
+Qed.
+Print Assumptions C11_units_other_unit.
+
+(* set_total_keeps_composition: a total-flow setter multiplies every entry of every molar dict of the stream by one
+   and the same number (v / F), so the composition is unchanged *)
+Theorem C11_set_total_keeps_composition : forall Vf MWf pkgs h s w v,
+  NoDup (rowrefs h s) -> ~ total Vf MWf pkgs h s w == 0 ->
+  forall d, In d (rowrefs h s) -> (d < length (rows h))%nat -> forall j,
+    nthq (getrow (fst (set_total Vf MWf pkgs h s w v)) d) j
+    == (v / total Vf MWf pkgs h s w) * nthq (getrow h d) j.
+Proof.
+  intros Vf MWf pkgs h s w v ND NZ d IN L j. unfold set_total.
+  apply qzerob_false in NZ.
+  destruct w; rewrite NZ; cbn [negb fst]; unfold scale_all; apply map_rows_scale; auto.
+Qed.
+Print Assumptions C11_set_total_keeps_composition.
+
+(* ---------- non-vacuity ---------- *)
+Definition exV : nat -> phase -> Q -> Q -> Q := fun g p T P => (1 # 2) + inject_Z (Z.of_nat g) + T / 1024.
+Definition exMW : nat -> Q := mwstub.
+Definition exU : list (option (view * Q)) := [Some (VMol, 1); Some (VMass, 1); None].
+Definition exL : list init :=
+  [IS 0 Pl 320 65536 [2; (1 # 2); 1]; IM 0 [Pg; Pl] 320 65536 [[1; 2; 0]; [0; (1 # 2); 3]]; IS 0 Ps 256 65536 [1; 8; (1 # 2)]].
+(* reads, a link, an unlink, a phase change, an expansion of phases by copy_like, a package reset and its round trip *)
+Definition exOps : list op :=
+  [ORead 0 VMass; ORead 0 VVol; OLink 2 0 true true true; OUnlink 0; OPhase 0 Pg; OPhase 2 Ps; ORead 1 VMass;
+   OCopyLike 1 2; ORoundTrip 1 1; OThermo 0 1; OSet 0 VMass 0 1 4; ORead 0 VVol; ORead 1 VVol; ORead 1 VMass].
+
+Example C11_exV_respects_eq : Vf_respects_eq exV.
+Proof. intros g p T T' P P' ET EP. unfold exV. rewrite ET. reflexivity. Qed.
+
+(* the history runs without leaving the modelled domain, ends with cached mass and volumetric views for streams 0 and 1
+   (so the conclusions of alias_inv / vol_get / mass_get talk about existing views), stream 1 has three phases after the
+   expansion, and the hypotheses of mass_get / mass_set / set_total_keeps_composition hold for it *)
+Example C11_nonvacuous :
+  let h := final exV exMW pkgstub exU exL exOps in
+  existsb (fun x => match x with XDomain | XErr _ => true | _ => false end)
+          (snd (run exV exMW pkgstub exU (build exL) exOps)) = false /\
+  exists s0 s1 m0 m1 v0 v1,
+    nth_error (streams h) 0 = Some s0 /\ nth_error (streams h) 1 = Some s1 /\
+    c_mass (getcache h (cch s0)) = Some m0 /\ c_mass (getcache h (cch s1)) = Some m1 /\
+    vol_find (tc s0) (c_vols (getcache h (cch s0))) = Some v0 /\
+    vol_find (tc s1) (c_vols (getcache h (cch s1))) = Some v1 /\
+    length (srcs h s1) = 3%nat /\ NoDup (rowrefs h s1) /\
+    (forall d, In d (rowrefs h s1) -> (d < length (rows h))%nat /\ length (getrow h d) = length (mwvec exMW pkgstub (pkg s1))) /\
+    ~ total exV exMW pkgstub h s1 VMass == 0.
+Proof.
+  cbv zeta. split; [vm_compute; reflexivity|].
+  do 6 eexists. repeat (split; [vm_compute; reflexivity|]).
+  split; [vm_compute; repeat constructor; simpl; intuition discriminate|].
+  split.
+  - vm_compute. intros d [E|[E|[E|F]]]; try contradiction; subst d; split; try reflexivity; lia.
+  - vm_compute. discriminate.
+Qed.
